@@ -10,7 +10,7 @@
    strand break and ends d = bl d 0 0 ++ [0] adds the loop of the outer ends. *)
 From Coq Require Import List NArith.
 From DSD Require Import Base.Str Base.Errors Model.ComplexUtils Model.Loops Dyck.Dyck
-  Proofs.Db Proofs.Assoc Proofs.C06 Proofs.Loops.
+  Proofs.Db Proofs.Assoc Proofs.C06 Proofs.Loops Proofs.LoopsConn Proofs.LoopsObj.
 Import ListNotations.
 
 (* every accepted structure is the rendering of a tree, the table is that tree's table *)
@@ -51,3 +51,66 @@ Theorem C08_is_connected_iff_loop_index : forall sst,
   is_connected sst = Ok true <-> exists le, loop_index_of sst = Ok le.
 Proof. exact is_connected_true. Qed.
 Print Assumptions C08_is_connected_iff_loop_index.
+
+(* connected_iff: make_loop_index does not raise exactly when the strand graph
+   (vertices = strands, edges = base pairs; `connected` is the reflexive,
+   symmetric, transitive closure, defined without reference to the code) is
+   connected *)
+Theorem C08_connected_iff : forall d,
+  (exists r, make_loop_index (tab_of d) = Ok r) <-> connected (tab_of d).
+Proof. exact connected_iff. Qed.
+Print Assumptions C08_connected_iff.
+
+Theorem C08_disconnected_raises : forall d,
+  ~ connected (tab_of d) -> make_loop_index (tab_of d) = Err eSSE.
+Proof. exact disconnected_sse. Qed.
+Print Assumptions C08_disconnected_raises.
+
+(* object level: is_connected is graph connectivity *)
+Theorem C08_is_connected_spec : forall sst d,
+  make_pair_table cP [cD] sst = Ok (tab_of d) ->
+  (is_connected sst = Ok true <-> connected (tab_of d)) /\
+  (is_connected sst = Ok false <-> ~ connected (tab_of d)).
+Proof. exact is_connected_spec. Qed.
+Print Assumptions C08_is_connected_spec.
+
+Theorem C08_get_loop_index_spec : forall sst d a,
+  make_pair_table cP [cD] sst = Ok (tab_of d) -> NoDup (ends d) ->
+  get_loop_index sst a = match getl (loops_of d) a with Some l => Ok l | None => Err eIndex end.
+Proof. exact get_loop_index_spec. Qed.
+Print Assumptions C08_get_loop_index_spec.
+
+(* ext_dom_spec: exterior / enclosed domains of a connected complex are exactly
+   the unpaired positions inside / outside exterior loops *)
+Theorem C08_exterior_enclosed_domains : forall sst d,
+  make_pair_table cP [cD] sst = Ok (tab_of d) -> NoDup (ends d) ->
+  exists xs ns,
+    exterior_domains sst = Ok xs /\ enclosed_domains sst = Ok ns /\
+    forall a,
+      (In a xs <-> get (tab_of d) a = Some None /\
+                   exists l, getl (loops_of d) a = Some l /\ In l (ends d)) /\
+      (In a ns <-> get (tab_of d) a = Some None /\
+                   exists l, getl (loops_of d) a = Some l /\ ~ In l (ends d)).
+Proof. exact ext_dom_spec. Qed.
+Print Assumptions C08_exterior_enclosed_domains.
+
+Theorem C08_exterior_domains_disconnected : forall sst d,
+  make_pair_table cP [cD] sst = Ok (tab_of d) -> ~ NoDup (ends d) ->
+  exterior_domains sst = Err eSSE /\ enclosed_domains sst = Err eSSE.
+Proof. exact ext_dom_disconnected. Qed.
+Print Assumptions C08_exterior_domains_disconnected.
+
+(* dlc_spec: true exactly when every pair joins a domain with its complement
+   (`named`: every paired position carries a domain, e.g. because the sequence
+   has the strand lengths of the structure: same_shape_named) *)
+Theorem C08_domainlevel_complement : forall seq sst pt,
+  make_pair_table cP [cD] sst = Ok pt -> named (strand_table_of seq) pt ->
+  exists b, is_domainlevel_complement seq sst = Ok b /\
+            (b = true <-> all_complementary (strand_table_of seq) pt).
+Proof. exact dlc_spec. Qed.
+Print Assumptions C08_domainlevel_complement.
+
+Theorem C08_same_shape_named : forall stab d,
+  map (@length pstr) stab = map (@length (option loc)) (tab_of d) -> named stab (tab_of d).
+Proof. exact same_shape_named. Qed.
+Print Assumptions C08_same_shape_named.
